@@ -193,6 +193,18 @@ PROPS["C11"] = dict(
     assumptions=["every caller performs exactly one receive on its channel (regattaserver/kv.go does)", "waiter ids are unique"],
 )
 
+PROPS["C15"] = dict(
+    title="At most one follower node holds a table's replication lease at a time",
+    design_ref="DESIGN.md section 7 (C15)",
+    run_files=["Run/C15Run.v"],
+    engines=[dict(cmd=["c15"], corr="Model.Lease.lexec <-> table.Manager.LeaseTable/ReturnTable over kv.LFSM compare-and-set", timeout=900)],
+    level_text="Theorem for every interleaving (single metadata-store operations of any number of nodes, any lease durations incl. already expired ones, any passage of a global clock): at most one node holds a granted, unreturned, unexpired lease; the invariant is proved for each step; grant condition, one winner among racing requests, return removes only the caller's own lease. The real LeaseTable/ReturnTable run over the real kv.LFSM CAS semantics behind a scheduler that releases one store operation at a time: all interleavings of two calls enumerated plus random 2-3 node schedules, compared with the model and with a mutual-exclusion oracle.",
+    level_note="Trusts: Coq kernel; one global monotone clock (nodes' clocks are assumed synchronised, as the lease design itself assumes); correspondence run; RaftStore.Set/Delete result mapping re-implemented in the harness store (same code shape).",
+    technique="Coq proof (inductive invariant over a small-step interleaving semantics with a ghost grant map) + scheduler-controlled differential check of table.Manager lease calls",
+    trusted=["Model/Lease.v hand-written model of Manager.LeaseTable/ReturnTable and the LFSM version rule"],
+    assumptions=["global monotone clock", "metadata store versions are log indices >= 1 (C13)"],
+)
+
 # Properties not (yet) claimed, each with a reason; kept current as checks are added.
 _PENDING = "check not built yet in this development; will be claimed once its model, theorems and correspondence harness exist"
 NOT_APPLICABLE = [dict(property_id="C%02d" % i, reason=_PENDING) for i in range(1, 20) if "C%02d" % i not in PROPS]
